@@ -3,9 +3,9 @@
    source ended" clauses are FALSE (known findings C10-I, C10-J, C10-K; witnesses below are schedules
    observed on the implementation under the deterministic scheduler). Proved for all schedules:
    the source is pulled once per element, the shared boxes hold the pulled elements in order, and every
-   fork has received a prefix of them (so all forks see the same elements in source order).
-   C10_tee_window_todo is not proved; it is checked by the oracle on every explored run. *)
-From MpV Require Import Lib.Conc Model.Tee Proof.TeeProof Proof.TeePrefix.
+   fork has received a prefix of them (so all forks see the same elements in source order), and the source is never
+   pulled more than buffer_size + 2 elements beyond what any fork has received (C10_tee_window; the bound is attained). *)
+From MpV Require Import Lib.Conc Model.Tee Proof.TeeProof Proof.TeePrefix Proof.TeeWindow.
 
 Theorem C10_source_pulled_once : forall (g : cfg) (sched : list label),
   let s := run step g (init g) sched in
@@ -24,6 +24,24 @@ Theorem C10_fork_prefix : forall (g : cfg) (sched : list label) (f : nat) (k : f
   exists consumed, src g = consumed ++ rest s /\ recv k = firstn (length (recv k)) (datas_all consumed).
 Proof. exact fork_prefix_of_source. Qed.
 Print Assumptions C10_fork_prefix.
+
+(* Bounded window: for every number of forks, window size, source (data elements and failures) and every interleaving,
+   including every expiry of the timed acquisition of the source lock, and for every fork: the number of elements pulled
+   from the source never exceeds what that fork has been handed so far by more than buffer_size + 2. (Proof: box.n counts
+   exactly the forks that have passed the box; the boxes pulled are the completed ones, the ones in the window queue and
+   at most one held inside the source lock; a completed box has been passed by every fork.) *)
+Theorem C10_tee_window : forall (g : cfg) (sched : list label) (f : nat) (k : fork),
+  let s := run step g (init g) sched in
+  nth_error (forks s) f = Some k -> pulled s <= length (recv k) + bufsize g + 2.
+Proof. exact tee_window. Qed.
+Print Assumptions C10_tee_window.
+
+(* The bound is attained: buffer_size 2, fork 0 runs ahead, fork 1 has popped the first box but not yet received it. *)
+Example C10_tee_window_tight :
+  let g := {| nforks := 2; bufsize := 2; src := [SData 0; SData 1; SData 2; SData 3; SData 4; SData 5; SData 6] |} in
+  let s := run step g (init g) (repeat (Fk 0 false) 60 ++ repeat (Fk 1 false) 6 ++ repeat (Fk 0 false) 60) in
+  pulled s = 4 /\ option_map (fun k => length (recv k)) (nth_error (forks s) 1) = Some 0.
+Proof. vm_compute. split; reflexivity. Qed.
 
 (* C10-I: the first-element path takes the source lock unconditionally while a peer holds it blocked
    in buffer.put: both forks hang (2 forks, buffer_size 2, 3 elements). *)
